@@ -22,6 +22,22 @@ Theorem poolsum_meaning : forall (A : alg) (r : string -> V A) b idx,
   vsum (map (fun c => den (bind r (combine (names idx) (map (den r) c))) b) (product (pools idx))).
 Proof. exact den_PSum. Qed.
 
+(* the pools are LISTS of values: a repeated value, or two values that a substitution makes coincide,
+   is summed over once per occurrence *)
+Example pool_values_count_with_multiplicity :
+  wf repeated_value /\
+  evaluate repeated_value = Add [Pow (Sym "x") (Num 1 1); Pow (Sym "x") (Num 1 1)] /\
+  forall (A : alg) (r : string -> V A),
+    den r repeated_value =
+    vadd A (vpow A (r "x") (vnum A 1 1)) (vadd A (vpow A (r "x") (vnum A 1 1)) (vzero A)).
+Proof. exact repeated_value_ok. Qed.
+
+Example pool_values_merged_by_substitution :
+  wf merged_values /\
+  subs1 "a" (Sym "b") merged_values = PSum (Pow (Sym "x") (Sym "i")) [("i", [Sym "b"; Sym "b"])] /\
+  doit (subs1 "a" (Sym "b") merged_values) = Add [Pow (Sym "x") (Sym "b"); Pow (Sym "x") (Sym "b")].
+Proof. exact merged_values_ok. Qed.
+
 (* evaluate(): Add over itertools.product of the SEQUENTIALLY substituted summand is that sum *)
 Theorem evaluate_is_sum : forall (A : alg) e (r : string -> V A),
   wf e -> den r (evaluate e) = den r e.
@@ -107,6 +123,15 @@ Theorem cleanup_preserves_unless_unused_nonsingleton : forall (A : alg) b idx (r
   den r (cleanup (PSum b idx)) = den r (PSum b idx).
 Proof. exact cleanup_den. Qed.
 
+(* the index test of cleanup is on the ORIGINAL summand: PoolSum(x*i*j + y, (i,(0,)), (j,(1,2,3))) keeps
+   the sum over j although i := 0 cancels every j (the value stays 3*y) *)
+Example cleanup_tests_original_summand :
+  wf cancel_case /\
+  cleanup cancel_case =
+    PSum (Add [Mul [Sym "x"; Num 0 1; Sym "j"]; Sym "y"]) [("j", [Num 1 1; Num 2 1; Num 3 1])] /\
+  forall (A : alg) (r : string -> V A), den r (cleanup cancel_case) = den r cancel_case.
+Proof. exact cancel_case_ok. Qed.
+
 (* "cleanup() never changes the value" is FALSE of the faithful model: PoolSum(x,(i,(0,1,2)))
    is cleaned up to x, the sum is 3x  (known finding cleanup_drops_unused_index) *)
 Theorem cleanup_changes_value_refuted :
@@ -155,6 +180,9 @@ Example evaluate_duplicate_index_outside_hypothesis :
 Proof. exact (conj eq_refl dup_index_refuted). Qed.
 
 Print Assumptions poolsum_meaning.
+Print Assumptions pool_values_count_with_multiplicity.
+Print Assumptions pool_values_merged_by_substitution.
+Print Assumptions cleanup_tests_original_summand.
 Print Assumptions evaluate_is_sum.
 Print Assumptions doit_is_sum.
 Print Assumptions free_symbols_spec.
